@@ -238,6 +238,21 @@ def apply_mutations(case, dg: bytes, muts):
             sp = ref_split(dg)
             if sp and sp["flags"] & 0x80:
                 dg = dg[:6] + sp["body_wire"] + b"\x00\xff" * m[1] + sp["trailer"]
+        elif op == "cutblocks":
+            # cut the datagram exactly at a block boundary inside the last block list: its count says N, only k < N blocks follow
+            if not (case["flags"] & 0x90) and case["blocks"] and dg == ref_datagram(case):
+                bname, insts = case["blocks"][-1]
+                k = len(insts) - 1 - (m[1] % len(insts)) if insts else None
+                if k is not None and 0 <= k < len(insts):
+                    short = dict(case, blocks=[list(b) for b in case["blocks"][:-1]] + [[bname, insts[:k]]])
+                    try:
+                        dg = dg[:len(ref_datagram(short))]
+                    except Exception:
+                        pass
+        elif op == "offset":
+            # the extra-header length byte says more than there is room for
+            if len(dg) > 6:
+                dg = dg[:5] + bytes([m[1]]) + dg[6:]
         elif op == "ackcount":
             if dg and dg[0] & 0x10:
                 dg = dg[:-1] + bytes([m[1]])
@@ -255,11 +270,15 @@ MUT = st.one_of(
     st.tuples(st.just("append"), st.binary(min_size=1, max_size=16)),
     st.tuples(st.just("rezero"), st.sampled_from(["pairs", "split", "wrap", "lone"])),
     st.tuples(st.just("ackcount"), st.integers(0, 255)),
+    st.tuples(st.just("cutblocks"), st.integers(0, 5)),
+    st.tuples(st.just("offset"), st.one_of(st.integers(1, 12), st.integers(0, 255))),
 )
 MUTS = st.one_of(st.just([]), st.just([]), st.lists(MUT, min_size=1, max_size=1), st.lists(MUT, min_size=1, max_size=3),
                  st.lists(st.one_of(st.tuples(st.just("trunc"), st.floats(min_value=0.3, max_value=0.999)),
                                     st.tuples(st.just("del"), frac, st.integers(1, 4))), min_size=1, max_size=1),
-                 st.lists(st.tuples(st.just("rezero"), st.sampled_from(["pairs", "split", "wrap", "lone"])), min_size=1, max_size=1))
+                 st.lists(st.tuples(st.just("rezero"), st.sampled_from(["pairs", "split", "wrap", "lone"])), min_size=1, max_size=1),
+                 st.lists(st.tuples(st.just("cutblocks"), st.integers(0, 5)), min_size=1, max_size=1),
+                 st.lists(st.tuples(st.just("offset"), st.integers(1, 12)), min_size=1, max_size=1))
 INSPECT = st.one_of(
     st.just(["never"]), st.just(["header"]),
     st.lists(st.sampled_from(["header", "blocks", "getitem", "to_dict", "repr", "blocks"]), min_size=1, max_size=3),
@@ -429,7 +448,10 @@ def laws_on_datagram(ctx, dg, deferred, inspect, classes, ref_name=None):
         if ctx is not None:
             ctx.case((dg, tuple(inspect), deferred), nontrivial=parsed, classes=classes)
         return out
-    identity_required = (mode == "unparsed") or (status == "exact" and canon and not has_nan)
+    # (a body that, by the format, ends inside a block list has not been understood by anybody: looking at it must not change it either)
+    identity_required = (mode == "unparsed") or (status == "exact" and canon and not has_nan) or (status == "short" and canon)
+    if status == "short" and parsed:
+        classes.append("short_body_inspected_without_failure")
     if identity_required:
         classes.append("identity_required")
         if dg2 != dg:
